@@ -1,4 +1,6 @@
 """C40 — REPL: results are shifted only for inputs that produced a value; continuation routing; *e."""
+CANON = True
+
 import ast
 import os
 import sys
